@@ -100,7 +100,7 @@ class ConfigDict(ComposedNode, dict):
             #val.set_parent(None, None)
         return val
 
-    def update(self, other, **kwargs):
+    def update(self, other=(), **kwargs):
         try:
             itr = other.items()
         except:
